@@ -107,6 +107,32 @@ CLAIMED['C19'] = dict(
          '(bounded). Real HTTP encoding by requests is not covered.',
     design='§6 C19')
 
+CLAIMED['C01'] = dict(
+    text='Packet.write/_write_buffer: the bytes handed to the socket equal frame(payload, threshold) for a symbolic payload '
+         'length and EVERY threshold (absent, None, any integer incl. negative/zero/huge) in exactly two sends. '
+         'PacketReactor.read_packet: (i) the reassembly loop is verified by inductive invariant + variant under the short-read '
+         'contract (any 1 <= k <= n per read, so every partition of the byte stream incl. one byte at a time, and every '
+         'end-of-stream position), exit state = exactly the frame body with the cursor at its end; (ii) from that state the '
+         'parser returns the packet of the payload id (registered class given exactly the field bytes, unknown id -> generic '
+         'Packet with the id), with the stream cursor exactly at the end of the frame, for one and for two consecutive '
+         'symbolic frames, compression on/off; (iii) inflated size must match. Cipher wrappers refine the read/send contracts '
+         'for every split (stream homomorphism), Connection._write_packet passes the threshold iff compression is enabled.',
+    note='Trusted: zlib inverse pair, cipher contexts as stream homomorphisms (what AES-CFB8 computes is C18\'s bounded part), '
+         'S1 read contracts, select.select arbitrary, S2 VarInt contracts (C03). Sequences longer than two frames follow by '
+         'induction on the cursor postcondition - that induction is an argument, not machine-checked. Bounded stand-ins on the '
+         'real code (thresholds x sizes, chunked reads, truncations, real AES wrappers) run alongside.',
+    design='§6 C01')
+CLAIMED['C15'] = dict(
+    text='The crash point is a symbolic integer (bytes sent before the server stops). Discharged on the real source: '
+         'VarInt.read performs at most max_bytes+1 reads and raises EOFError at end of stream for every stream; the frame '
+         'reassembly loop has a variant that strictly decreases on every back edge for every end-of-stream position and exits '
+         'only with the whole frame (otherwise EOFError); the cipher wrapper preserves k = 0 iff end of stream; a packet is '
+         'returned only from a complete, size-consistent frame.',
+    note='Propagation of the exception to thread termination and the status-phase fallback are the C14/C09 obligations '
+         '(included here once those modules provide them); liveness beyond per-call termination and real blocking-socket '
+         'behaviour are assumed (S1). Bounded: every prefix of three reference streams through the real read_packet with a read budget.',
+    design='§6 C15')
+
 PLANNED = {
     'C01': 'check not built yet (DESIGN §6 C01): frame contracts on Packet.write/_write_buffer/read_packet',
     'C02': 'check not built yet (DESIGN §6 C02)',
